@@ -27,7 +27,7 @@ func (c *decrypt3k3yCmd) Run() error {
 		return err
 	}
 
-	fmt.Printf("Decrypting 3k3y image %s ...\n", c.Image.Name())
+	fmt.Fprintf(os.Stderr, "Decrypting 3k3y image %s ...\n", c.Image.Name())
 
 	_, err = io.Copy(c.Output, imageWrapped)
 	return err
@@ -50,7 +50,7 @@ func (c *decryptRedumpCmd) Run() error {
 		return err
 	}
 
-	fmt.Printf("Decrypting Redump image %s ...\n", c.Image.Name())
+	fmt.Fprintf(os.Stderr, "Decrypting Redump image %s ...\n", c.Image.Name())
 
 	_, err = io.Copy(c.Output, imageWrapped)
 	return err
